@@ -8,11 +8,11 @@ import gen_c14_layouts as _g14  # noqa: E402
 
 ENGINES = {
     # in-crate harnesses of radicle-node (hook modules `verif_kani`, cfg(kani))
-    "node": {"cwd": "$REPO", "pkg": ["-p", "radicle-node"]},
+    "node": {"cwd": "$REPO", "pkg": ["-p", "radicle-node", "--lib"], "slots": 4},
 }
 SETUP_ENGINES = ["node"]
 # replay include files that exist in harness sources of an engine but belong to no registered harness (yet)
-EXTRA_REPLAY_FILES = {"node": ["wire_c13", "wire_c14", "service_c29"]}
+EXTRA_REPLAY_FILES = {"node": ["wire_c13", "wire_c14", "service_c29", "limiter"]}
 
 Q = ["quick", "thorough"]
 T = ["thorough"]
@@ -139,3 +139,32 @@ PROPERTIES["C29"] = {
                 "re-sending the cached node/inventory announcement to a new connection re-uses its old timestamp by design"],
     "assumptions": ["one-step induction: the only state the generator depends on is (clock, last_timestamp)"],
 }
+
+# ---------------------------------------------------------------------------------------------
+# C17
+
+_M17 = "service::limiter::verif_kani"
+_F17 = ["service::limiter::TokenBucket::{new,refill,take}", "localtime::LocalTime::{from_millis,duration_since}", "localtime::LocalDuration::as_secs"]
+_c17h = []
+for _k, _tiers, _rates in [(3, Q, ["0", "0p1", "0p2", "third", "0p5", "1", "2p5", "10"]), (4, T, ["0p2", "1"]), (5, T, ["0p2", "2p5"])]:
+    for _r in _rates:
+        _c17h.append(H(f"c17_window_k{_k}_rate_{_r}", "node", _M17, "limiter", tiers=_tiers, covers=2, timeout={"quick": 600, "thorough": 3000},
+            functions=_F17,
+            bounds=f"{_k} requests at arbitrary non-decreasing times (first < 2^40 ms, gaps < 2^32 ms) against one bucket created at the first request; capacity any value <= 2^20; refill rate = {_r.replace('p', '.').replace('third', '1/3')} tokens/s (concrete); every sub-window i..=j checked; f64 comparison with relative slack 1e-9",
+            stubs=[]))
+_c17h.append(H("c17_is_routable_classifies_every_ipv4", "node", _M17, "limiter", tiers=Q, covers=2,
+    functions=["radicle::node::address::is_routable", "ipv4_is_routable", "ipv6_is_routable"],
+    bounds="every IPv4 address (4 symbolic octets) and every IPv6 address (16 symbolic octets)", stubs=[]))
+PROPERTIES["C17"] = {
+    "harnesses": _c17h,
+    "outside": ["refill rates other than the 8 listed (symbolic x symbolic f64 multiplication does not terminate on any back end here, DESIGN §8)",
+                "more than 5 requests per timeline; capacities above 2^20",
+                "RateLimiter::limit itself (HashMap<HostName, TokenBucket> / HashSet<NodeId> state): that bypassed nodes and non-routable addresses return before a bucket is touched is read off the source; only the address classifier is checked",
+                "non-monotonic `now`: TokenBucket::refill panics (LocalTime::duration_since) on a backwards clock, but its only caller passes Service::clock, which Service::tick only ever advances (read off the source)"],
+    "assumptions": ["request times are non-decreasing (established by Service::tick)", "IEEE-754 double arithmetic as modelled by CBMC's float encoding"],
+}
+
+# ---------------------------------------------------------------------------------------------
+# C24 (engine S: SQL -> SMT-LIB2, see bin/sqlsmt.py)
+
+PROPERTIES["C24"] = {"kind": "smt", "harnesses": []}
